@@ -1,5 +1,6 @@
 import Lean  -- WORKAROUND only: checks/common.py's audit snippet uses `CoreM`/`collectAxioms` without importing Lean; nothing below uses it
 import HqModel.Lemmas.AutoAllocTick
+import HqModel.Lemmas.AutoAllocPermit
 /-!
 # C17 — automatic allocation respects its limits and submits only on demand
 Model: `HqModel.AutoAlloc` (M6). The environment (batch system, scheduler answer, clock, hash orders) is
@@ -113,14 +114,11 @@ theorem c17_resume_live (s : State) (x : Nat) (q : Queue) (now : Nat) (order : L
   State.resume_tick_live s x q now order sn mn results responses resp n rest hmask hq hpos hnd hmerge hresp hdemand
     hroom hel hnp
 
-/-- The two witnesses of F13, as model runs: `mask` is what `resume()` resets. -/
-def f13Run (mask : Nat) : List Out :=
-  let s0 := init ⟨10, 20, mask⟩ 1
-  let s1 := (step s0 (.addQueue ⟨1, 1, none⟩ (Limiter.new [0, 1000] 2 3) none)).st
-  let s2 := (step s1 (.tick 0 [1] (.ok [1] []) [.fail])).st
-  let s3 := (step s2 (.tick 1000 [1] (.ok [1] []) [.fail])).st     -- second failure: paused by the limit
-  let s4 := (step s3 (.resume 1)).st
-  (step s4 (.tick 5000 [1] (.ok [1] []) [.ok 1])).outs
+/-- **The permit does not depend on the hash order of the allocations** (which is why that order is not an input
+of the model): permuting the stored allocations of a queue leaves `compute_submission_permit` unchanged. -/
+theorem c17_permit_order_independent (q q' : Queue) (r : QResp) (hp : q'.params = q.params)
+    (h : q'.allocs.Perm q.allocs) : q'.permit r = q.permit r :=
+  Queue.permit_perm q q' r hp h
 
 /-- **F13 (the code before `cdd9fd1`, `resumeMask = 0`): resume liveness is FALSE.** The queue was paused by
 `max_submission_fails`; `resume` flips the state only; the next tick (demand 1, room, back-off long elapsed)
